@@ -11,14 +11,14 @@ impl SerBytes for &Digest { open spec fn ser_bytes(&self) -> Seq<u8> { (**self).
 impl Pt { #[verifier::external_body] pub fn clone(&self) -> (r: Pt) ensures r == *self { unimplemented!() } }
 impl Leaf { #[verifier::external_body] pub fn clone(&self) -> (r: Leaf) ensures r == *self { unimplemented!() } }
 pub uninterp spec fn col_hash(col: Seq<FS>) -> Leaf;                       // H::evaluate(params, col).into()
-pub uninterp spec fn path_valid(p: &Path, root: &Digest, leaf: Leaf) -> bool;   // what Path::verify decides
+pub uninterp spec fn path_valid(p: Path, root: Digest, leaf: Leaf) -> bool;   // what Path::verify decides
 pub struct Path { pub leaf_index: usize, pub auth: Ghost<int> }
 pub struct PathError;
 impl Path {
     // ark-crypto-primitives Path::verify: Ok(true) iff the authentication path links `leaf` at `leaf_index` to `root`
     #[verifier::external_body]
     pub fn verify(&self, lp: &HashParams, tp: &HashParams, root: &Digest, leaf: Leaf) -> (r: Result<bool, PathError>)
-        ensures r is Ok ==> r->Ok_0 == path_valid(self, root, leaf) { unimplemented!() }
+        ensures r is Ok ==> r->Ok_0 == path_valid(*self, *root, leaf) { unimplemented!() }
 }
 pub struct H;
 impl H {
